@@ -541,6 +541,9 @@ func TestC12Restart(t *testing.T) {
 		if wrapper && !recv && !s2s {
 			them = us.Domain()
 		}
+		// a client's first header need not say who it is: then no origin is
+		// established, only the location the client asked for
+		firstNoFrom := recv && rapid.IntRange(0, 3).Draw(rt, "firstNoFrom") == 0
 		// second header: which address changes ("resource": the initiating
 		// entity's address differs in nothing but the resourcepart)
 		change := rapid.SampledFrom([]string{"none", "none", "from", "to", "dropfrom", "dropto", "both", "resource", "shift"}).Draw(rt, "change")
@@ -573,7 +576,7 @@ func TestC12Restart(t *testing.T) {
 		}
 		decoysInHeaders = rapid.IntRange(0, 2).Draw(rt, "decoys") == 0
 		defer func() { decoysInHeaders = false }()
-		desc := fmt.Sprintf("restart recv=%v s2s=%v convenience-constructor=%v us=%s them=%s second-header-change=%s second-header-defect=%s qualified-look-alike-attributes=%v", recv, s2s, wrapper, us, them, change, defect, decoysInHeaders)
+		desc := fmt.Sprintf("restart recv=%v s2s=%v convenience-constructor=%v us=%s them=%s second-header-change=%s second-header-defect=%s qualified-look-alike-attributes=%v first-header-without-from=%v", recv, s2s, wrapper, us, them, change, defect, decoysInHeaders, firstNoFrom)
 		ev.Case(true, desc, "restart", "restart-"+change, "restart-defect-"+defect)
 		fail := func(format string, args ...any) {
 			rt.Helper()
@@ -582,7 +585,11 @@ func TestC12Restart(t *testing.T) {
 		ran := 0
 		feat := restartFeature(&ran)
 		headers := 0
-		from2, to2 := them.String(), us.String()
+		from1 := them.String()
+		if firstNoFrom {
+			from1 = ""
+		}
+		from2, to2 := from1, us.String()
 		switch change {
 		case "from":
 			from2 = other.String()
@@ -663,7 +670,7 @@ func TestC12Restart(t *testing.T) {
 			// we are the initiating entity
 			switch r.Steps {
 			case 0:
-				return []byte(tcpHeader(ns, them.String(), us.String(), ""))
+				return []byte(tcpHeader(ns, from1, us.String(), ""))
 			case 1:
 				return []byte(`<restart xmlns="urn:verif:restart"/>`)
 			case 2:
@@ -693,6 +700,11 @@ func TestC12Restart(t *testing.T) {
 			fail("%s", p)
 		}
 		changed := change == "from" || change == "to" || change == "both" || change == "resource" || change == "shift"
+		if firstNoFrom && from2 != "" && to2 == us.String() {
+			// an origin named for the first time differs from nothing established:
+			// the statement does not say whether that header is accepted
+			return
+		}
 		if ran != 1 {
 			fail("the restarting feature ran %d times (harness expectation 1); err=%v output=%q", ran, err, peer.Conn.Output())
 		}
